@@ -22,6 +22,7 @@ class Scen(object):
     self.vars = {}                           # name -> z3 expr (inputs, for witnesses)
     self.hints = []
     self.info = {}
+    self.splits = []
 
   def claim(self, name, goal):
     self.goals[name] = ("claim", goal)
@@ -72,7 +73,8 @@ def run_call(ip, f, args=(), kwargs=None):
 
 def eval_exclude(expr, vars_):
   env = {"And": z3.And, "Or": z3.Or, "Not": z3.Not, "Implies": z3.Implies, "If": z3.If,
-         "true": z3.BoolVal(True), "false": z3.BoolVal(False)}
+         "true": z3.BoolVal(True), "false": z3.BoolVal(False),
+         "ipow2": I.IPOW2, "pow2": I.POW2}
   env.update(vars_)
   return eval(expr, {"__builtins__": {}}, env)  # our own committed file, not repo input
 
@@ -163,6 +165,31 @@ def run_case(case, tier, known):
   return res
 
 
+def _split_check(residual, atoms, timeout, first):
+  """Prove residual unsat by splitting on atoms (all branches must be unsat).
+  Sound: the branches cover all cases.  Returns an Outcome."""
+  total = first.seconds
+  work = [(residual, list(atoms))]
+  solver = first.solver
+  while work:
+    cs, rest = work.pop()
+    o = VC.check_sat(cs, timeout, use_external=not rest)
+    total += o.seconds
+    solver = o.solver
+    if o.status == "unsat":
+      continue
+    if o.status == "sat":
+      o.seconds = total
+      return o
+    if not rest:
+      o.seconds = total
+      return o
+    a = rest[0]
+    work.append((cs + [a], rest[1:]))
+    work.append((cs + [z3.Not(a)], rest[1:]))
+  return VC.Outcome("unsat", solver + "+split", total)
+
+
 def _run_clause(case, cname, per_path, timeout, known_entries, res):
   out = {"kind": None, "status": "discharged", "vcs": 0, "seconds": 0.0, "solvers": {},
          "witness": None, "model_raw": None, "reason": "", "known": [], "path": None}
@@ -179,15 +206,22 @@ def _run_clause(case, cname, per_path, timeout, known_entries, res):
     out["kind"] = kind
     g = _goal_expr(g)
     base = list(p.pc) + [z3.Not(g)]
-    ax = VC.all_axioms(base, hints)
     excl = []
     for ent in known_entries:
       try:
         excl.append((ent, eval_exclude(ent["exclude"], vars_)))
       except Exception as e:  # pylint: disable=broad-except
         out["reason"] += " known-finding exclude failed to evaluate: %s" % e
+    ax = VC.all_axioms(base + [x for _, x in excl], hints)
     residual = base + ax + [z3.Not(x) for _, x in excl]
     o = VC.check_sat(residual, timeout)
+    if o.status == "unknown":
+      # case-split on the atoms of the excluded regions and on contract-supplied split terms
+      atoms = []
+      for _, x in excl:
+        atoms.extend(x.children() if z3.is_and(x) else [x])
+      atoms.extend(getattr(s, "splits", []) if s is not None else [])
+      o = _split_check(residual, atoms, timeout, o)
     out["vcs"] += 1
     out["seconds"] += o.seconds
     out["solvers"][o.solver] = out["solvers"].get(o.solver, 0) + 1
